@@ -3,7 +3,9 @@ import SaModel.Spec.TouchRange
 import SaModel.Spec.TouchEq
 /-
 `touchOK` — the run-time specification ingredient of the `corrupt` suite (C17): every slot a successful read of
-target `t` at slot `i` of `a` has to visit lies below the length of the array it belongs to.  The definition is
+target `t` at slot `i` of `a` has to visit lies below the length of the array it belongs to, and at a leaf what the
+slot DESIGNATES lies inside the buffers the view has (`leafOK`: the offset pair inside the data buffer, a view descriptor
+inline or inside a buffer that exists, a FixedSizeBinary row inside the data, the value slot of a dictionary key).  The definition is
 the total model function `SaModel.Spec.touchOK` (lean/SaModel/Spec/TouchRange.lean), the one
 `SaModel.Props.C17.readAs_touch_in_range` is about; this file only re-exports it for the driver.
 
